@@ -41,10 +41,18 @@ def parse_block(s):
         m = re.match(r'(if|for|while|switch|do|try|goto)\b', s[i:])
         if m:
             kw = m.group(1)
-            if kw not in ('if', 'for', 'while'): raise TranslationError('unsupported control statement: ' + kw)
+            if kw not in ('if', 'for', 'while', 'switch'): raise TranslationError('unsupported control statement: ' + kw)
             j = skip(i + len(kw))
             e = match(s, j, '(', ')')
             head = s[j + 1:e].strip()
+            if kw == 'switch':
+                # the cases are alternatives; treated as a body executed zero or one time, labels removed (Pre/Post are refused inside)
+                b0 = skip(e + 1)
+                if s[b0] != '{': raise TranslationError('switch without block')
+                e2 = match(s, b0, '{', '}')
+                inner = re.sub(r'\b(case\s+[\w:]+|default)\s*:', ' ', s[b0 + 1:e2])
+                inner = re.sub(r'\bbreak\s*;', ' ', inner)
+                return ('loop', head, parse_block(inner)), e2 + 1
             body, k = one(e + 1)
             if body is None: raise TranslationError('missing body')
             body = body[1] if body[0] == 'block' else [body]
@@ -77,11 +85,11 @@ OWNED = {'_modelSimple'}     # private clones of the KrigingSystem, deleted with
 def events_of(text, recv=None):
     """events on the receiver `recv` ('' = this); with recv None: (receiver, event) pairs"""
     ev = []
-    for m in re.finditer(r'((?:[\w]+(?:\(\))?\s*(?:->|\.)\s*)*)optimization(Pre|Post)Process\s*\(', text):
+    for m in re.finditer(r'((?:[\w]+(?:\(\))?\s*(?:->|\.)\s*)*)optimization(PreProcess|PostProcess|SetTargetByIndex|SetTarget)\s*\(', text):
         r = re.sub(r'\s', '', m.group(1))
         r = re.sub(r'(->|\.)$', '', r)
         base = re.split(r'->|\.', r)[0] if r else ''
-        ev.append((m.start(), base, 'Pre' if m.group(2) == 'Pre' else 'Post'))
+        ev.append((m.start(), base, {'PreProcess': 'Pre', 'PostProcess': 'Post', 'SetTargetByIndex': 'TgtIdx', 'SetTarget': 'Tgt'}[m.group(2)]))
     ev.sort()
     if recv is None: return [(b, e) for _, b, e in ev]
     return [e for _, b, e in ev if b == recv]
@@ -108,7 +116,7 @@ def paths(stmts, recv):
                 for branch in branches:
                     for w2, t2 in paths(branch, recv): nxt.add((w + ev + w2, t2))
             elif s[0] == 'loop':
-                if events_of(s[1]): raise TranslationError('Pre/Post in a loop header')
+                if any(e in ('Pre', 'Post') for b, e in events_of(s[1])): raise TranslationError('Pre/Post in a loop header')
                 nxt.add((w, False))
                 for w2, t2 in paths(s[2], recv):
                     if any(e in ('Pre', 'Post') for e in w2): raise TranslationError('Pre/Post inside a loop body')
@@ -128,23 +136,58 @@ def functions(src):
     return out
 
 def translate(repo):
-    rows = []
+    rows = []; inside = []
     files = sorted(glob.glob(os.path.join(repo, 'src', '**', '*.cpp'), recursive=True))
     for p in files:
         raw = open(p, errors='replace').read()
-        if 'optimizationPreProcess' not in raw and 'optimizationPostProcess' not in raw: continue
+        if 'optimizationPreProcess' not in raw and 'optimizationPostProcess' not in raw and 'optimizationSetTarget' not in raw: continue
         src = strip_comments(raw)
         for name, body, line in functions(src):
-            if re.search(r'::_?optimization(Pre|Post)Process$', name): continue
-            if not re.search(r'optimization(Pre|Post)Process\s*\(', body): continue
+            if re.search(r'::_?optimization(PreProcess|PostProcess|SetTarget|SetTargetByIndex)$', name): continue      # the implementation of the protocol itself
+            if not re.search(r'optimization(PreProcess|PostProcess|SetTarget\w*)\s*\(', body): continue
             blk = parse_block(body)
             recvs = sorted(set(b for b, e in events_of(body)))
             for rv in recvs:
                 if rv in OWNED: continue
                 ps = paths(blk, rv)
                 words = sorted(set(w + (() if t else ('Ret',)) for w, t in ps))
-                rows.append((name + ('@%s' % rv if rv else ''), os.path.relpath(p, repo), line, PROTOCOL.get(name, 'closed'), words))
+                kind = PROTOCOL.get(name, 'closed')
+                if kind == 'closed' and not any(e in ('Pre', 'Post') for w in words for e in w): kind = 'inside'    # only sets targets
+                rows.append((name + ('@%s' % rv if rv else ''), os.path.relpath(p, repo), line, kind, words))
+                if kind == 'inside': inside.append((name, os.path.relpath(p, repo), src, any('TgtIdx' in w for w in words)))
     if not rows: raise TranslationError('no function calling optimizationPreProcess was found')
+    # functions that only set targets rely on the cache being prepared: every PUBLIC member function of their class from
+    # which they are reachable must refuse to run before the opener succeeded (`if (!_isReady) ... return`)
+    entries = []
+    for cls in sorted(set(n.split('::')[0] for n, f, src, ti in inside)):
+        srcs = [src for n, f, src, ti in inside if n.startswith(cls + '::')]
+        src = srcs[0]
+        fns = {n.split('::')[1]: b for n, b, l in functions(src) if n.startswith(cls + '::')}
+        calls = {n: set(m for m in re.findall(r'(?<![\w.>:])(\w+)\s*\(', b) if m in fns and m != n) for n, b in fns.items()}
+        def closure(seed):
+            reach = set(seed); changed = True
+            while changed:
+                changed = False
+                for n, cs in calls.items():
+                    if n not in reach and cs & reach: reach.add(n); changed = True
+            return reach
+        reach = closure(n.split('::')[1] for n, f, s_, ti in inside if n.startswith(cls + '::'))
+        reach_idx = closure(n.split('::')[1] for n, f, s_, ti in inside if n.startswith(cls + '::') and ti)
+        hdrs = glob.glob(os.path.join(repo, 'include', '**', cls + '.hpp'), recursive=True)
+        if not hdrs: raise TranslationError('header of %s not found' % cls)
+        hdr = strip_comments(open(hdrs[0]).read())
+        pub = set()
+        mode = 'private'
+        for line in hdr.split('\n'):
+            mm = re.match(r'\s*(public|private|protected)\s*:', line)
+            if mm: mode = mm.group(1)
+            elif mode == 'public':
+                for m2 in re.finditer(r'\b(\w+)\s*\(', line): pub.add(m2.group(1))
+        for n in sorted(reach & pub):
+            if PROTOCOL.get(cls + '::' + n) in ('opener', 'closer'): continue
+            if n == cls or n.startswith('~'): continue
+            guarded = bool(re.match(r'\s*(?:[^;{}]*;\s*)*?if\s*\(\s*!\s*_isReady\s*\)', fns[n][:400]))
+            entries.append((cls + '::' + n, guarded, n in reach_idx))
     # the implementation of the pair must still have the known shape (Pre does nothing when already prepared)
     acov = strip_comments(open(os.path.join(repo, 'src/Covariances/ACov.cpp')).read())
     if not re.search(r'void ACov::optimizationPostProcess\(\) const\s*\{\s*_optimizationPostProcess\(\);\s*_isOptimPreProcessed = false;\s*\}', acov):
@@ -158,12 +201,16 @@ def translate(repo):
     w('Open Scope string_scope.')
     w('')
     w('Definition optim_paths : list (string * fkind * list word) := [')
-    w(';\n'.join('  (* %s:%d *) ("%s", %s, [%s])' % (f, line, name, {'closed': 'Closed', 'opener': 'Opener', 'closer': 'Closer'}[kind],
+    w(';\n'.join('  (* %s:%d *) ("%s", %s, [%s])' % (f, line, name, {'closed': 'Closed', 'opener': 'Opener', 'closer': 'Closer', 'inside': 'Inside'}[kind],
                                                     '; '.join('[' + '; '.join(wd) + ']' for wd in words))
                  for name, f, line, kind, words in rows))
     w('].')
+    w('')
+    w('(* public entry points from which a target-setting function is reachable: guarded by `if (!_isReady)`? ; reaches a')
+    w('   SetTargetByIndex (which needs the cache prepared)? A by-point target is valid in any state. *)')
+    w('Definition optim_entries : list (string * bool * bool) := [' + '; '.join('("%s", %s, %s)' % (n, 'true' if g else 'false', 'true' if t else 'false') for n, g, t in entries) + '].')
     table = [{'name': n, 'file': f, 'line': l, 'kind': k, 'words': [list(x) for x in ws]} for n, f, l, k, ws in rows]
-    return '\n'.join(L) + '\n', table
+    return '\n'.join(L) + '\n', {'rows': table, 'entries': entries}
 
 if __name__ == '__main__':
     repo = sys.argv[1] if len(sys.argv) > 1 else '/repo'
